@@ -85,6 +85,7 @@ Lemma wf3_rev : forall c s l s' g qg' t, WF s -> Step c s l s' ->
 Proof.
   intros c s l s' g qg' t W H Hg Hpc.
   step_rq H Hg W.
+  all: f1_split.
   all: simpl in Hpc; try discriminate Hpc.
   all: try solve [left; eexists; split; [eassumption | assumption]].
   all: try solve [match goal with X : q_pc _ = _ |- _ => rewrite X in Hpc; discriminate Hpc end].
